@@ -6,7 +6,7 @@ from persim import wasserstein
 
 from ..core import Clause, close
 from ..oracles import matching as M
-from ..strategies import diagram_family
+from ..strategies import diagram_family, valid_family
 from ._dist import (EMPTY_FORMS, INF, as_input, call_quiet, coord_scale, has_dup, lattice_slice_cases,
                     pair_labels, small_pairs)
 
@@ -146,3 +146,9 @@ CLAUSES = [
            rule="EXHAUSTIVE: all 23409 ordered pairs of multisets of <= 2 points on the 16-point lattice {(b,b+l): b,l in 0..3}; "
                 "non-trivial = both non-empty and (some optimal matching mixes cross and diagonal pairs or a point is repeated)"),
 ]
+
+
+def VALID_DEFAULT(case):
+    if "fam" in case:
+        return valid_family(case["fam"])
+    return all(p[1] >= p[0] for p in case["A"] + case["B"])
